@@ -289,6 +289,15 @@ Theorem parent_column_names_the_row_above : forall X derive net wt acct root rd 
   PInv X (ws_keys (run X derive (set_lib_fixes X w g p) ops)).
 Proof. exact reachable_PInv. Qed.
 
+(* --- the two guards the book takes from the source text of wallets.py (Gen/GenWalletCfg.v) are the documented ones:
+       another witness type only from a private main key of depth 0 (never on a non-multisig wallet otherwise), new
+       accounts likewise; a test that loses a condition no longer equals the frozen copy --- *)
+Theorem key_request_guards_are_the_documented_ones : forall has_main is_private depth0 wt_differs multisig,
+  kfp_witness_guard has_main is_private depth0 wt_differs multisig =
+    spec_kfp_witness_guard has_main is_private depth0 wt_differs multisig /\
+  new_account_guard has_main is_private depth0 wt_differs multisig = spec_new_account_guard has_main is_private depth0.
+Proof. exact (fun a b c d e => conj (kfp_witness_guard_frozen a b c d e) (new_account_guard_frozen a b c d e)). Qed.
+
 (* --- non-vacuity --- *)
 Example documented_paths :
   spec_path Segwit false 0 2 1 5 0 = [(84, true); (0, true); (2, true); (1, false); (5, false)] /\
@@ -490,3 +499,4 @@ Print Assumptions request_outside_reach_refused.
 Print Assumptions handed_out_key_is_at_documented_path_for_requested_type.
 Print Assumptions new_keys_hand_out_documented_paths.
 Print Assumptions parent_column_names_the_row_above.
+Print Assumptions key_request_guards_are_the_documented_ones.
